@@ -26,7 +26,7 @@ func C19(p *load.Prog, r *oblig.Run) {
 		"R19.f (error discipline): on the publish path the error of FileWriter.WriteFile, Component.WriteHTMLTo, Close is propagated, stored into the returned error or panicked with, never dropped, and a failed write ends the worker loop."
 	r.NotDecided = "link closure in general (every href resolves to a generated page), byte-identical output across runs (unordered map iteration), hangs of the producer goroutine after a writer failure."
 	r.Assumptions = append(e4Assumptions(), "E2 assumptions as for C18")
-	g := cg.New(p, r.Tier == "thorough")
+	g := cg.New(p, false)
 	c19Confinement(p, r, g)
 	c19Names(p, r)
 	c19Letters(p, r)
